@@ -455,7 +455,28 @@ fn suspicious(ev: &Value) -> bool {
 fn rcube(r: &mut StdRng, nv: usize) -> (usize, usize) {
     let mut p = 0usize;
     let mut q = 0usize;
-    let mode = r.gen_range(0..5);
+    let mode = r.gen_range(0..7);
+    if mode >= 5 {
+        // every variable with the same polarity, perhaps one literal short or one literal opposed
+        let all = if nv >= 64 { usize::MAX } else { (1usize << nv) - 1 };
+        let (mut p, mut q) = if mode == 5 { (all, 0) } else { (0, all) };
+        if nv > 0 {
+            let v = 1usize << r.gen_range(0..nv);
+            match r.gen_range(0..3) {
+                0 => {
+                    p &= !v;
+                    q &= !v;
+                }
+                1 => {
+                    let t = p & v;
+                    p = (p & !v) | (q & v);
+                    q = (q & !v) | t;
+                }
+                _ => {}
+            }
+        }
+        return (p, q);
+    }
     for v in 0..nv {
         let (take, pos) = match mode {
             0 => (r.gen_range(0..3) != 0, r.gen()),
